@@ -207,8 +207,15 @@ func c19Probe(r *rng, id string) {
 	if len(toks) > 0 {
 		tk = strings.Join(toks, ";")
 	}
-	emit(c19Prop+" probe id=%s indirect=%d tcp=%s amax=%d s0=%d relays=%d evs=%s suspected=%d score=%d handlers=%d nind=%d expnacks=%d took=%d",
-		id, indirect, tcpMode, awareMax, s0, nrel, tk, susp, snap.Score, len(snap.AckHandlers), nInd, expNacks, int64(took))
+	// who signs the accusation that a failed probe queues for gossip (the original accuser never counts as a confirmer)
+	accuser := "-"
+	for _, b := range ml.VerifBroadcasts(m) {
+		if b.Type == 3 && b.Node == "T" {
+			accuser = b.From
+		}
+	}
+	emit(c19Prop+" probe id=%s indirect=%d tcp=%s amax=%d s0=%d relays=%d evs=%s suspected=%d score=%d handlers=%d nind=%d expnacks=%d took=%d accuser=%s",
+		id, indirect, tcpMode, awareMax, s0, nrel, tk, susp, snap.Score, len(snap.AckHandlers), nInd, expNacks, int64(took), accuser)
 	m.Shutdown()
 }
 
